@@ -32,7 +32,7 @@ def run(ctx):
     q = ctx.quick
     rnd = random.Random(ctx.seed)
     recs = []
-    for cfg, per_class in [("MC_quick.cfg", 1 if q else 6), ("MC_vals.cfg", 2 if q else 10)]:
+    for cfg, per_class in [("MC_quick.cfg", 1 if q else 3), ("MC_vals.cfg", 2 if q else 6)]:
         mc = ctx.tlc("backfill", "Backfill", cfg, workers=4, timeout=900)
         ctx.account(mc)
         by = {}
@@ -50,7 +50,7 @@ def run(ctx):
         big = ctx.tlc("backfill", "Backfill", "MC_big.cfg", workers=8, timeout=3000)
         ctx.account(big)
         ctx.log("MC_big: %d generated / %d distinct (%.0fs)" % (big.generated, big.distinct, big.wall))
-    sim = ctx.tlc("backfill", "Backfill", "SIM.cfg", simulate=(6 if q else 100), depth=40, workers=4, timeout=(120 if q else 900))
+    sim = ctx.tlc("backfill", "Backfill", "SIM.cfg", simulate=(6 if q else 40), depth=40, workers=4, timeout=(120 if q else 900))
     ctx.account(sim)
     ctx.log("SIM: %d inputs" % len(sim.emitted))
     recs += sim.emitted
